@@ -23,6 +23,8 @@ def build(ctx, rule):
     for f, rec, n in ems:
         if f.module.name != "gaftools.conversion":
             continue
+        if any(isinstance(x, (ast.Yield, ast.YieldFrom)) for x in ast.walk(f.node)):
+            continue  # a streaming generator that shows the converter's template only because the converter is inlined in it
         calls = [repo.resolve_call(f, c) for c in walk_own(f.node) if isinstance(c, ast.Call)]
         names = {c.qualname for c in calls if c is not None}
         if any("search" in q for q in names):
